@@ -22,8 +22,9 @@ EXTRA_TRUSTED = [
     "registered with register_type); the theorems are about SCustom in the model, whose validate/substitute "
     "case is 'forward to inner' by definition - that the real visitors forward path/indent/kwargs in every "
     "position is established by the per-run comparison wrapped-vs-unwrapped only (translation-validation style)",
-    "C16: generation and representation have no Coq statement in this file set yet (erase_gen / erase_represent "
-    "listed for the integrator); both are covered by the direct oracle on the real code",
+    "C16: erase_gen and erase_represent are theorems about the model's SCustom case ('hand the visitor to the wrapped "
+    "schema'); that the real generator and representor do so in every position is established by the direct "
+    "wrapped-vs-unwrapped oracle on the real code",
     "C16: uuid4()/datetime.utcnow()/date.today() are replaced by deterministic stand-ins inside the harness "
     "process while two generations are compared (custom.fixed_world)",
 ]
